@@ -6,6 +6,11 @@
 //!   chains without a normalising filter `token.text == &text[from..to]`.  In addition the
 //!   documented rule of `Token` ("Offsets shall not be modified by token filters") is checked by
 //!   driving the bare tokenizer in lock-step with the filtered chain.
+//! Stream "regex":   RegexTokenizer over a generated pattern family (empty-matching, anchored,
+//!   multi-byte) x texts with 0-4 byte characters between the matches; same checks.
+//! Stream "reuse":   one analyzer instance and clones of it over a sequence of texts, streams
+//!   dropped after 0..k tokens; per-token checks against the text of the stream plus equality
+//!   with the tokens of a freshly built analyzer.
 //! Stream "snippets": (analyzer, texts, query / term map, max_num_chars sweep) —
 //!   `SnippetGenerator::{create,new}`, `snippet`, `snippet_from_doc`, `Snippet::{fragment,
 //!   highlighted, to_html}` against a naive re-construction.
@@ -305,7 +310,7 @@ enum Tok {
     Whitespace,
     Raw,
     Ngram(usize, usize, bool),
-    Regex(&'static str),
+    Regex(String),
     Facet,
     /// an analyzer registered in `TokenizerManager::default()` (statically typed chains)
     Manager(&'static str),
@@ -451,7 +456,7 @@ fn gen_tok(rng: &mut Rng, allow_facet: bool) -> Tok {
             let b = rng.urange(a, 5);
             Tok::Ngram(a, b, rng.bool())
         }
-        4 => Tok::Regex(*rng.pick(REGEXES)),
+        4 => Tok::Regex(rng.pick(REGEXES).to_string()),
         5 => Tok::Facet,
         _ => Tok::Manager(*rng.pick(&["default", "raw", "en_stem", "whitespace"])),
     }
@@ -477,6 +482,39 @@ fn split_points(word: &str, rng: &mut Rng) -> Vec<String> {
 
 fn lower(s: &str) -> String {
     s.chars().flat_map(|c| c.to_lowercase()).collect()
+}
+
+/// dictionary for the compound splitter: German parts plus `lo..=hi` words of the texts cut into
+/// 2-3 parts (so that those words decompose completely), sometimes single characters / ""
+fn gen_split_dict(rng: &mut Rng, words: &[String], lo: usize, hi: usize) -> Vec<String> {
+    let mut d: Vec<String> = vec![];
+    for g in ["dampf", "schiff", "donau", "fahrt", "fuß", "ball", "welt", "meister", "schaft"] {
+        if rng.chance(2, 3) {
+            d.push(g.to_string());
+        }
+    }
+    for _ in 0..rng.urange(lo, hi) {
+        if words.is_empty() {
+            break;
+        }
+        let w = rng.pick(words).clone();
+        let w = if rng.bool() { lower(&w) } else { w };
+        d.extend(split_points(&w, rng));
+    }
+    if rng.chance(1, 3) {
+        for p in ["İ", "ß", "a", "é", "語", "😀", "e", "\u{301}", "i", "\u{307}", "σ", "ς"] {
+            if rng.bool() {
+                d.push(p.to_string());
+            }
+        }
+    }
+    if rng.chance(1, 12) {
+        d.push(String::new());
+    }
+    if d.is_empty() {
+        d.push("foo".into());
+    }
+    d
 }
 
 /// random subset of the seven filters; canonical order most of the time, shuffled otherwise
@@ -523,34 +561,7 @@ fn gen_filters(rng: &mut Rng, texts: &[String]) -> Vec<Filt> {
         }
     }
     if mask & 32 != 0 {
-        let mut d: Vec<String> = vec![];
-        for g in ["dampf", "schiff", "donau", "fahrt", "fuß", "ball", "welt", "meister", "schaft"] {
-            if rng.chance(2, 3) {
-                d.push(g.to_string());
-            }
-        }
-        for _ in 0..rng.urange(0, 4) {
-            if words.is_empty() {
-                break;
-            }
-            let w = rng.pick(&words).clone();
-            let w = if rng.bool() { lower(&w) } else { w };
-            d.extend(split_points(&w, rng));
-        }
-        if rng.chance(1, 3) {
-            for p in ["İ", "ß", "a", "é", "語", "😀", "e", "\u{301}", "i", "\u{307}", "σ", "ς"] {
-                if rng.bool() {
-                    d.push(p.to_string());
-                }
-            }
-        }
-        if rng.chance(1, 12) {
-            d.push(String::new());
-        }
-        if d.is_empty() {
-            d.push("foo".into());
-        }
-        fs.push(Filt::Split(d));
+        fs.push(Filt::Split(gen_split_dict(rng, &words, 0, 4)));
     }
     if mask & 64 != 0 {
         fs.push(Filt::Stem(*rng.pick(LANGS)));
@@ -579,6 +590,72 @@ fn tok_json(t: &Token) -> Value {
            "position_length": t.position_length, "text": clip(&t.text, 80)})
 }
 
+/// The per-token clauses of the statement (shared by every stream of this check): from <= to <=
+/// text.len(), both offsets on char boundaries, positions never decrease, and for chains without
+/// a normalising filter `token.text == &text[from..to]`.
+struct TokenInv {
+    normalising: bool,
+    is_facet: bool,
+    prev_pos: Option<usize>,
+    facet_reported: bool,
+}
+
+impl TokenInv {
+    fn new(spec: &Spec) -> TokenInv {
+        TokenInv {
+            normalising: spec.normalising(),
+            is_facet: matches!(spec.tok, Tok::Facet),
+            prev_pos: None,
+            facet_reported: false,
+        }
+    }
+
+    /// false: a violation was reported (stop driving this stream)
+    fn check(&mut self, rep: &mut Report, text: &str, t: &Token, idx: u64, wit: &dyn Fn(&Token, u64) -> Value) -> bool {
+        if t.offset_from > t.offset_to {
+            rep.violation("token:offset_from>offset_to", wit(t, idx));
+            return false;
+        }
+        if t.offset_to > text.len() {
+            rep.violation("token:offset_to>text.len", wit(t, idx));
+            return false;
+        }
+        if !text.is_char_boundary(t.offset_from) || !text.is_char_boundary(t.offset_to) {
+            rep.violation("token:offset-not-on-char-boundary", wit(t, idx));
+            return false;
+        }
+        if let Some(p) = self.prev_pos {
+            if t.position < p {
+                let mut w = wit(t, idx);
+                w["previous_position"] = json!(p);
+                rep.violation("token:position-decreased", w);
+                return false;
+            }
+        }
+        self.prev_pos = Some(t.position);
+        if !self.normalising && t.text != text[t.offset_from..t.offset_to] {
+            if self.is_facet && t.offset_from == 0 && t.offset_to == 0 {
+                // FacetTokenizer never assigns offset_from/offset_to (they stay 0..0) while the
+                // token text is the accumulated facet prefix; the other clauses stay checked
+                if !self.facet_reported {
+                    self.facet_reported = true;
+                    class_violation(rep, SIG_FACET, || {
+                        let mut w = wit(t, idx);
+                        w["slice"] = json!("");
+                        w
+                    });
+                }
+            } else {
+                let mut w = wit(t, idx);
+                w["slice"] = json!(clip(&text[t.offset_from..t.offset_to], 80));
+                rep.violation("token:text-ne-slice", w);
+                return false;
+            }
+        }
+        true
+    }
+}
+
 /// Drives `an.token_stream(text)`; `bare` (same tokenizer, no filters) is advanced in lock-step
 /// to check that filters did not modify offsets.
 fn check_stream(
@@ -590,16 +667,13 @@ fn check_stream(
     what: &str,
 ) -> StreamFacts {
     let mut facts = StreamFacts::default();
-    let normalising = spec.normalising();
-    let is_facet = matches!(spec.tok, Tok::Facet);
+    let mut inv = TokenInv::new(spec);
     let cap = (text.len() as u64 + 2) * 64;
     let mut stream = an.token_stream(text);
     let mut bare_stream = bare.as_mut().map(|b| b.token_stream(text));
     let mut bare_cur: Option<(usize, usize)> = None;
-    let mut prev_pos: Option<usize> = None;
     let mut max_end = 0usize;
     let mut idx = 0u64;
-    let mut facet_reported = false;
     let wit = |t: &Token, idx: u64| -> Value {
         let mut w = spec.witness();
         w["text"] = json!(clip(text, 200));
@@ -616,45 +690,8 @@ fn check_stream(
             rep.violation("token:stream-emits-more-than-64-tokens-per-byte", wit(t, idx));
             return facts;
         }
-        if t.offset_from > t.offset_to {
-            rep.violation("token:offset_from>offset_to", wit(t, idx));
+        if !inv.check(rep, text, t, idx, &wit) {
             return facts;
-        }
-        if t.offset_to > text.len() {
-            rep.violation("token:offset_to>text.len", wit(t, idx));
-            return facts;
-        }
-        if !text.is_char_boundary(t.offset_from) || !text.is_char_boundary(t.offset_to) {
-            rep.violation("token:offset-not-on-char-boundary", wit(t, idx));
-            return facts;
-        }
-        if let Some(p) = prev_pos {
-            if t.position < p {
-                let mut w = wit(t, idx);
-                w["previous_position"] = json!(p);
-                rep.violation("token:position-decreased", w);
-                return facts;
-            }
-        }
-        prev_pos = Some(t.position);
-        if !normalising && t.text != text[t.offset_from..t.offset_to] {
-            if is_facet && t.offset_from == 0 && t.offset_to == 0 {
-                // FacetTokenizer never assigns offset_from/offset_to (they stay 0..0) while the
-                // token text is the accumulated facet prefix; the other clauses stay checked
-                if !facet_reported {
-                    facet_reported = true;
-                    class_violation(rep, SIG_FACET, || {
-                        let mut w = wit(t, idx);
-                        w["slice"] = json!("");
-                        w
-                    });
-                }
-            } else {
-                let mut w = wit(t, idx);
-                w["slice"] = json!(clip(&text[t.offset_from..t.offset_to], 80));
-                rep.violation("token:text-ne-slice", w);
-                return facts;
-            }
         }
         if idx > 0 && t.offset_from < max_end && t.offset_to > t.offset_from {
             facts.overlapping = true;
@@ -683,7 +720,7 @@ fn check_stream(
         }
         idx += 1;
     }
-    facts.ok = !facet_reported;
+    facts.ok = !inv.facet_reported;
     facts
 }
 
@@ -735,7 +772,14 @@ fn token_case(case: u64, rng: &mut Rng, rep: &mut Report) {
     let plain: Vec<String> = texts.iter().map(|t| t.0.clone()).collect();
     let filters = if matches!(tok, Tok::Manager(_)) { vec![] } else { gen_filters(rng, &plain) };
     let spec = Spec { tok, filters };
-    let mut an = match build(&spec) {
+    drive_spec(case, rep, &spec, &texts, "tokens", 2);
+}
+
+/// One analyzer (and a clone of it, used for the odd texts) over a sequence of texts; every
+/// stream is consumed completely and checked token by token.  `min_tokens`: number of tokens a
+/// stream over a multi-byte text must emit to count as non-trivial.
+fn drive_spec(case: u64, rep: &mut Report, spec: &Spec, texts: &[(String, &'static str)], stream_name: &str, min_tokens: u64) {
+    let mut an = match build(spec) {
         Ok(a) => a,
         Err(e) => {
             rep.violation("api-error:build-analyzer", json!({"spec": spec.describe(), "err": e}));
@@ -773,10 +817,10 @@ fn token_case(case: u64, rng: &mut Rng, rep: &mut Report) {
     rep.observe("filter_subset", set.join("+"));
     for (i, (text, class)) in texts.iter().enumerate() {
         let a = if i % 2 == 0 { &mut an } else { &mut an2 };
-        let facts = match guarded(|| check_stream(rep, text, a, bare.as_mut(), &spec, "TextAnalyzer::token_stream")) {
+        let facts = match guarded(|| check_stream(rep, text, a, bare.as_mut(), spec, "TextAnalyzer::token_stream")) {
             Ok(f) => f,
             Err(p) if p.in_harness() => {
-                rep.harness_error(format!("tokens#{case}: panic in harness at {}: {}", p.location, p.message));
+                rep.harness_error(format!("{stream_name}#{case}: panic in harness at {}: {}", p.location, p.message));
                 return;
             }
             Err(p) => {
@@ -803,11 +847,11 @@ fn token_case(case: u64, rng: &mut Rng, rep: &mut Report) {
         if !spec.normalising() {
             rep.count("streams_with_text_eq_slice_check", 1);
         }
-        if has_multibyte(text) && facts.tokens >= 2 && facts.ok {
+        if has_multibyte(text) && facts.tokens >= min_tokens && facts.ok {
             rep.nontrivial(format!("{}|{}", spec.describe(), class));
         }
         if case < 4 && i == 0 {
-            rep.sample(json!({"stream": "tokens", "analyzer": spec.describe(), "text": clip(text, 60),
+            rep.sample(json!({"stream": stream_name, "analyzer": spec.describe(), "text": clip(text, 60),
                 "class": class, "tokens": facts.tokens}));
         }
         // PreTokenizedString: the tokens of a built-in analyzer, replayed through
@@ -830,6 +874,563 @@ fn token_case(case: u64, rng: &mut Rng, rep: &mut Report) {
                 );
             }
         }
+    }
+}
+
+// ---------------------------------------------------------------------------------------------
+// part 1b: RegexTokenizer over the pattern family (patterns that can match the empty string,
+// match at every position, are anchored, or match multi-byte characters)
+
+/// (regex atom, label, strings the atom matches — used to build texts around the pattern)
+const RX_ATOMS: &[(&str, &str, &[&str])] = &[
+    ("[a-z]", "ascii-class", &["ab", "cd", "x", "tax", "payer", "z"]),
+    (r"\w", "w", &["tax", "a1", "x_y", "é1", "語", "naïve"]),
+    (r"\d", "d", &["12", "7", "34", "٣٤", "１２"]),
+    (r"\p{L}", "pL", &["ab", "été", "東京", "ß", "Σ"]),
+    ("x", "ascii-literal", &["x", "xx", "xxx"]),
+    ("(?:ab)", "ascii-group", &["ab", "abab", "ababab"]),
+    ("é", "2-byte-literal", &["é", "éé"]),
+    ("語", "3-byte-literal", &["語", "語語"]),
+    ("😀", "4-byte-literal", &["😀", "😀😀"]),
+    ("(?:é語)", "multibyte-group", &["é語", "é語é語"]),
+    ("[à-ÿ]", "latin1-class", &["é", "ïà", "ÿ"]),
+    (r"\p{Han}", "han-class", &["東京", "語", "馬"]),
+    (r"[\u{1F600}-\u{1F64F}]", "emoji-class", &["😀", "😀🙏"]),
+    (r"\pM", "mark-class", &["\u{301}", "\u{308}\u{301}"]),
+    (".", "dot", &["a", "é", "語", "😀"]),
+    (r"\s", "s", &[" ", "\u{a0}", "\u{3000}", "\n"]),
+    (r"[^\s]", "S", &["ab", "語", "—", "😀"]),
+    ("[^a-z]", "negated-ascii-class", &["、", "—", "1", " ", "É"]),
+];
+/// (quantifier, can match zero repetitions)
+const RX_QUANTS: &[(&str, bool)] = &[
+    ("*", true), ("*", true), ("?", true), ("+", false), ("", false), ("{0,2}", true), ("*?", true),
+    ("??", true), ("{2}", false), ("{0}", true), ("+?", false), ("{1,3}", false),
+];
+/// patterns named in the property / documentation of the tokenizer, plus pure anchors
+const RX_FIXED: &[(&str, bool)] = &[
+    ("[a-z]*", true), (r"\w*", true), (r"\d*", true), ("x?", true), ("(?:ab)*", true),
+    (r"\d*|[a-z]+", true), ("[a-z]+|", true), ("|[a-z]+", true), (r"\b", true), (r"\B", true),
+    ("^", true), ("$", true), ("(?m)^", true), (r"\A[a-z]*", true), (r"[a-z]*\z", true),
+    (r"\b\w*\b", true), (r"\pL*\pM*", true), ("(?i)[a-zıſ\u{212a}]*", true), ("(?s).*", true),
+    (".*", true), (r"\S*\s?", true), (r"'(?:\w*)'", false), (r"\w+", false), (r"\A\w+\s?", false),
+    (r"\p{Han}|[a-z]*", true), ("é*", true), ("語?", true), ("😀*", true), (r"(?:é|語|😀)*", true),
+];
+/// what stands between the matching pieces of a text: 0, 1, 2, 3 and 4 byte characters
+const RX_SEPS: &[&str] = &[
+    "", " ", ",", "\n", "-", "é", "ß", "\u{a0}", "\u{301}", "—", "、", "€", "。", "\u{3000}", "語", "😀", "𝒜",
+    "\u{10ffff}", " — ", "€ ", "😀\u{200d}😀",
+];
+
+struct Pattern {
+    regex: String,
+    /// the pattern can match the empty string somewhere (by construction)
+    nullable: bool,
+    shape: String,
+    /// strings matched by the atoms of the pattern
+    matching: Vec<&'static str>,
+}
+
+fn gen_pattern(rng: &mut Rng) -> Pattern {
+    if rng.chance(1, 3) {
+        let (r, nullable) = *rng.pick(RX_FIXED);
+        let matching = vec!["ab", "cd", "x", "12", "tax", "abab", "é", "語", "😀", "'aaa'", "東京"];
+        return Pattern { regex: r.to_string(), nullable, shape: format!("fixed:{r}"), matching };
+    }
+    let mut matching: Vec<&'static str> = vec![];
+    let mut shape_alts: Vec<String> = vec![];
+    let mut alts: Vec<String> = vec![];
+    let mut nullable = false;
+    let nalts = *rng.pick(&[1usize, 1, 1, 2, 2, 3]);
+    for _ in 0..nalts {
+        let nseq = *rng.pick(&[1usize, 1, 2, 2, 3]);
+        let mut seq = String::new();
+        let mut seq_shape: Vec<String> = vec![];
+        let mut seq_nullable = true;
+        for _ in 0..nseq {
+            let (atom, label, m) = *rng.pick(RX_ATOMS);
+            let (q, zero) = *rng.pick(RX_QUANTS);
+            seq.push_str(atom);
+            seq.push_str(q);
+            seq_shape.push(format!("{label}{q}"));
+            seq_nullable &= zero;
+            matching.extend_from_slice(m);
+        }
+        if rng.chance(1, 12) {
+            // an empty alternative: `a|`, `|a`
+            seq.clear();
+            seq_shape = vec!["empty".into()];
+            seq_nullable = true;
+        }
+        nullable |= seq_nullable;
+        alts.push(seq);
+        shape_alts.push(seq_shape.join(" "));
+    }
+    let mut regex = alts.join("|");
+    let mut shape = shape_alts.join(" | ");
+    // an alternation must be grouped before something is attached to it
+    let mut grouped = nalts == 1;
+    if !grouped && rng.bool() {
+        regex = format!("(?:{regex})");
+        grouped = true;
+        if rng.chance(1, 3) {
+            let (q, zero) = *rng.pick(RX_QUANTS);
+            regex.push_str(q);
+            shape = format!("({shape}){q}");
+            nullable |= zero;
+        }
+    }
+    if rng.chance(1, 4) {
+        let a = *rng.pick(&["^", r"\A", "(?m)^", r"\b", r"\B"]);
+        regex = if grouped { format!("{a}{regex}") } else { format!("{a}(?:{regex})") };
+        grouped = true;
+        shape = format!("{a} {shape}");
+    }
+    if rng.chance(1, 6) {
+        let a = *rng.pick(&["$", r"\z", "(?m)$", r"\b"]);
+        regex = if grouped { format!("{regex}{a}") } else { format!("(?:{regex}){a}") };
+        shape = format!("{shape} {a}");
+    }
+    if rng.chance(1, 6) {
+        // case-insensitive, dot-matches-newline, verbose, swapped greediness
+        let f = *rng.pick(&["(?i)", "(?s)", "(?x)", "(?U)"]);
+        regex = format!("{f}{regex}");
+        shape = format!("{f} {shape}");
+    }
+    Pattern { regex, nullable, shape, matching }
+}
+
+/// pieces the pattern matches, separated by characters of every UTF-8 length
+fn regex_text(rng: &mut Rng, pat: &Pattern) -> (String, &'static str) {
+    if pat.matching.is_empty() || rng.chance(1, 4) {
+        return gen_text(rng, false, false);
+    }
+    let n = match rng.below(8) {
+        0 => 1,
+        1 | 2 => 2,
+        3..=6 => rng.urange(3, 8),
+        _ => rng.urange(8, 40),
+    };
+    let mut s = String::new();
+    if rng.chance(1, 5) {
+        s.push_str(*rng.pick(RX_SEPS));
+    }
+    for i in 0..n {
+        if i > 0 {
+            s.push_str(*rng.pick(RX_SEPS));
+            if rng.chance(1, 5) {
+                s.push_str(*rng.pick(RX_SEPS));
+            }
+        }
+        if rng.chance(1, 8) {
+            let pool = *rng.pick(ALL_POOLS);
+            s.push_str(*rng.pick(pool));
+        } else {
+            s.push_str(*rng.pick(&pat.matching));
+        }
+    }
+    if rng.chance(1, 5) {
+        s.push_str(*rng.pick(RX_SEPS));
+    }
+    (s, "regex-interleaved")
+}
+
+/// filters that do not rewrite the token text (the text == slice clause stays checked)
+fn gen_plain_filters(rng: &mut Rng, texts: &[String]) -> Vec<Filt> {
+    let mut fs = vec![];
+    if rng.bool() {
+        fs.push(Filt::RemoveLong(*rng.pick(&[1usize, 2, 3, 5, 40, usize::MAX])));
+    }
+    if rng.chance(1, 3) {
+        fs.push(Filt::AlphaNum);
+    }
+    if rng.chance(1, 3) {
+        let words: Vec<&str> = texts.iter().flat_map(|t| naive_words(t)).collect();
+        if words.is_empty() {
+            fs.push(Filt::StopLang(*rng.pick(LANGS)));
+        } else {
+            fs.push(Filt::StopCustom((0..rng.urange(1, 3)).map(|_| rng.pick(&words).to_string()).collect()));
+        }
+    }
+    fs
+}
+
+fn regex_case(case: u64, rng: &mut Rng, rep: &mut Report) {
+    let pat = gen_pattern(rng);
+    if let Err(e) = RegexTokenizer::new(&pat.regex) {
+        // construction is not the subject of C19; the generator is meant to emit valid patterns only
+        rep.count("regex_patterns_rejected", 1);
+        rep.note(format!("regex#{case}: pattern {:?} rejected: {e}", pat.regex));
+        return;
+    }
+    let ntexts = rng.urange(1, 4);
+    let texts: Vec<(String, &'static str)> = (0..ntexts).map(|_| regex_text(rng, &pat)).collect();
+    let plain: Vec<String> = texts.iter().map(|t| t.0.clone()).collect();
+    let filters = match rng.below(6) {
+        0 | 1 => gen_plain_filters(rng, &plain),
+        2 => gen_filters(rng, &plain),
+        _ => vec![],
+    };
+    let spec = Spec { tok: Tok::Regex(pat.regex.clone()), filters };
+    rep.observe("regex_pattern_shape", pat.shape.clone());
+    rep.observe("regex_pattern_nullable", if pat.nullable { "can-match-empty" } else { "never-empty" });
+    rep.count("regex_streams", texts.len() as u64);
+    if pat.nullable {
+        rep.count("regex_streams_pattern_can_match_empty", texts.len() as u64);
+        rep.count(
+            "regex_streams_pattern_can_match_empty_multibyte_text",
+            texts.iter().filter(|t| has_multibyte(&t.0)).count() as u64,
+        );
+    }
+    drive_spec(case, rep, &spec, &texts, "regex", 1);
+}
+
+// ---------------------------------------------------------------------------------------------
+// part 1c: analyzer reuse — one analyzer instance (and clones of it) over a sequence of texts,
+// streams dropped after 0..k tokens; every stream must satisfy the statement for ITS text and
+// yield the tokens a fresh analyzer of the same configuration yields for that text
+
+fn reuse_text(rng: &mut Rng) -> (String, &'static str) {
+    match rng.below(10) {
+        0..=3 => {
+            // compound-friendly: few words, so that the dictionary (cut from the words) splits them
+            let n = *rng.pick(&[1usize, 1, 2, 2, 3, 5, 9]);
+            (join_pieces(rng, &[GERMAN, GERMAN, ASCII, LATIN, TURKISH, CJK], n, &[" ", " ", ", ", "-", "\u{3000}"]), "compounds")
+        }
+        4 => (rng.pick(&["été", "é", "a", "語", "", "😀", "ß ß"]).to_string(), "tiny"),
+        _ => {
+            let (t, c) = gen_text(rng, false, false);
+            if t.len() > 600 {
+                let mut cut = 100 + rng.urange(0, 400);
+                while !t.is_char_boundary(cut) {
+                    cut += 1;
+                }
+                (t[..cut].to_string(), c)
+            } else {
+                (t, c)
+            }
+        }
+    }
+}
+
+fn reuse_spec(rng: &mut Rng, texts: &[String]) -> Spec {
+    let tok = if rng.chance(1, 8) { Tok::Regex(gen_pattern(rng).regex) } else { gen_tok(rng, false) };
+    if let Tok::Regex(r) = &tok {
+        if RegexTokenizer::new(r).is_err() {
+            return Spec { tok: Tok::Simple, filters: vec![] };
+        }
+    }
+    if matches!(tok, Tok::Manager(_)) {
+        return Spec { tok, filters: vec![] };
+    }
+    let mut filters = gen_filters(rng, texts);
+    if rng.bool() {
+        // a compound splitter whose dictionary decomposes several words of the texts
+        let words: Vec<String> = texts.iter().flat_map(|t| naive_words(t)).map(|w| w.to_string()).collect();
+        let dict = gen_split_dict(rng, &words, 2, 8);
+        filters.retain(|f| !matches!(f, Filt::Split(_)));
+        let at = rng.urange(0, filters.len());
+        filters.insert(at, Filt::Split(dict));
+    }
+    Spec { tok, filters }
+}
+
+fn fresh_tokens(spec: &Spec, text: &str) -> Result<Vec<Token>, String> {
+    let mut an = build(spec)?;
+    let mut out = vec![];
+    let mut s = an.token_stream(text);
+    while s.advance() {
+        out.push(s.token().clone());
+        if out.len() as u64 > (text.len() as u64 + 2) * 64 {
+            break;
+        }
+    }
+    Ok(out)
+}
+
+/// where a stream is abandoned: `k` = number of tokens pulled before the drop
+fn drop_point(rng: &mut Rng, expected: &[Token]) -> (usize, &'static str) {
+    let len = expected.len();
+    // "inside a group": the next token starts where the last pulled one started (the unread
+    // parts of a split compound, the rest of an n-gram window, the deeper facet prefixes)
+    let inside: Vec<usize> = (1..len).filter(|&i| expected[i].offset_from == expected[i - 1].offset_from).collect();
+    match rng.weighted(&[30, 30, 6, 8, 8, 18]) {
+        0 => (len, "fully-consumed"),
+        1 if !inside.is_empty() => (*rng.pick(&inside), "inside-a-group-of-tokens-with-equal-start"),
+        2 => (0, "nothing-pulled"),
+        3 if len >= 1 => (1, "after-first-token"),
+        4 if len >= 1 => (len - 1, "before-last-token"),
+        _ => {
+            if len == 0 {
+                (0, "nothing-pulled")
+            } else {
+                (rng.urange(0, len), "random")
+            }
+        }
+    }
+}
+
+struct ReuseStep {
+    instance: usize,
+    text: String,
+    pulled: usize,
+    of: usize,
+}
+
+/// one token stream of a reused instance, pulled token by token up to its drop point
+struct Drive<'a> {
+    stream: tantivy::tokenizer::BoxTokenStream<'a>,
+    text: &'a str,
+    expected: &'a [Token],
+    k: usize,
+    i: usize,
+    inv: TokenInv,
+    use_next: bool,
+}
+
+#[derive(PartialEq)]
+enum DriveState {
+    More,
+    Done,
+    Failed,
+}
+
+impl Drive<'_> {
+    fn step(&mut self, rep: &mut Report, wit: &dyn Fn(&Token, u64) -> Value) -> DriveState {
+        if self.i >= self.k {
+            if self.k == self.expected.len() {
+                // fully consumed: the stream must end here as well
+                if self.stream.advance() {
+                    let t = self.stream.token().clone();
+                    if self.inv.check(rep, self.text, &t, self.i as u64, wit) {
+                        rep.violation("reuse:stream-emits-more-tokens-than-a-fresh-analyzer", wit(&t, self.i as u64));
+                    }
+                    return DriveState::Failed;
+                }
+            }
+            return DriveState::Done;
+        }
+        let got: Option<Token> = if self.use_next {
+            self.stream.next().cloned()
+        } else if self.stream.advance() {
+            Some(self.stream.token().clone())
+        } else {
+            None
+        };
+        let Some(t) = got else {
+            let mut w = wit(&self.expected[self.i], self.i as u64);
+            w["note"] = json!("`token` is the token a fresh analyzer emits at this index; the reused one ended");
+            rep.violation("reuse:stream-ends-before-that-of-a-fresh-analyzer", w);
+            return DriveState::Failed;
+        };
+        // the statement itself, for THIS text
+        if !self.inv.check(rep, self.text, &t, self.i as u64, wit) {
+            return DriveState::Failed;
+        }
+        if t != self.expected[self.i] {
+            let mut w = wit(&t, self.i as u64);
+            w["fresh_analyzer_token"] = tok_json(&self.expected[self.i]);
+            rep.violation("reuse:token-differs-from-that-of-a-fresh-analyzer", w);
+            return DriveState::Failed;
+        }
+        rep.count("reuse_tokens_checked", 1);
+        self.i += 1;
+        DriveState::More
+    }
+}
+
+fn reuse_case(case: u64, rng: &mut Rng, rep: &mut Report) {
+    let facet = rng.chance(1, 16);
+    let nsteps = rng.urange(3, 9);
+    let texts: Vec<(String, &'static str)> =
+        (0..nsteps).map(|_| if facet { (facet_text(rng), "facet-encoded") } else { reuse_text(rng) }).collect();
+    let plain: Vec<String> = texts.iter().map(|t| t.0.clone()).collect();
+    let spec = if facet { Spec { tok: Tok::Facet, filters: gen_filters(rng, &plain) } } else { reuse_spec(rng, &plain) };
+    let first = match build(&spec) {
+        Ok(a) => a,
+        Err(e) => {
+            rep.violation("api-error:build-analyzer", json!({"spec": spec.describe(), "err": e}));
+            return;
+        }
+    };
+    rep.observe("reuse_tokenizer", spec.tok_kind());
+    let has_split = spec.filters.iter().any(|f| matches!(f, Filt::Split(_)));
+    // what a fresh analyzer of the same configuration yields for each text
+    let mut expected: Vec<Vec<Token>> = vec![];
+    for (t, _) in &texts {
+        match guarded(|| fresh_tokens(&spec, t)) {
+            Ok(Ok(v)) => expected.push(v),
+            Ok(Err(e)) => {
+                rep.violation("api-error:build-analyzer", json!({"spec": spec.describe(), "err": e}));
+                return;
+            }
+            Err(p) if p.in_harness() => {
+                rep.harness_error(format!("reuse#{case}: panic in harness at {}: {}", p.location, p.message));
+                return;
+            }
+            Err(p) => {
+                let mut w = spec.witness();
+                w["text"] = json!(clip(t, 200));
+                w["panic"] = json!({"at": p.location, "message": clip(&p.message, 300)});
+                rep.violation(format!("token:token_stream-panics:{}", panic_sig(&p)), w);
+                return;
+            }
+        }
+    }
+    // instance 0: the analyzer; 1: a clone made before any use; 2..: clones made later, right
+    // after a stream of the cloned instance was dropped
+    let clone0 = first.clone();
+    let mut instances: Vec<TextAnalyzer> = vec![first, clone0];
+    let mut kinds: Vec<&'static str> = vec!["original", "clone-made-before-use"];
+    let mut history: Vec<ReuseStep> = vec![];
+    let mut last_partial: Vec<Option<&'static str>> = vec![None, None];
+    let mut last_used = 0usize;
+    let mut step = 0usize;
+    while step < nsteps {
+        if history.len() >= 1 && instances.len() < 4 && rng.chance(1, 5) {
+            let c = instances[last_used].clone();
+            instances.push(c);
+            kinds.push("clone-made-after-a-dropped-stream");
+            last_partial.push(last_partial[last_used]);
+        }
+        let interleaved = step + 1 < nsteps && rng.chance(1, 5);
+        let ia = match rng.below(4) {
+            0 | 1 => 0,
+            2 => 1,
+            _ => rng.usize_below(instances.len()),
+        };
+        let ib = if interleaved { (ia + 1 + rng.usize_below(instances.len() - 1)) % instances.len() } else { ia };
+        let mut jobs: Vec<(usize, usize)> = vec![(ia, step)];
+        if interleaved {
+            jobs.push((ib, step + 1));
+        }
+        let drops: Vec<(usize, &'static str)> = jobs.iter().map(|&(_, s)| drop_point(rng, &expected[s])).collect();
+        let use_next: Vec<bool> = jobs.iter().map(|_| rng.chance(1, 3)).collect();
+        let order_seed = rng.next_u64();
+        rep.observe("reuse_stream_mode", if interleaved { "two-instances-interleaved" } else { "sequential" });
+        let hist_json: Vec<Value> = history
+            .iter()
+            .rev()
+            .take(6)
+            .rev()
+            .map(|h| json!({"instance": h.instance, "text": clip(&h.text, 80), "tokens_pulled": h.pulled, "of": h.of}))
+            .collect();
+        let kinds_json = json!(kinds);
+        let result = guarded(|| {
+            // two &mut out of the vector
+            let mut refs: Vec<Option<&mut TextAnalyzer>> = instances.iter_mut().map(Some).collect();
+            let mut drives: Vec<Drive> = vec![];
+            for (j, &(inst, s)) in jobs.iter().enumerate() {
+                let an = refs[inst].take().expect("distinct instances");
+                let text: &str = &texts[s].0;
+                drives.push(Drive {
+                    stream: an.token_stream(text),
+                    text,
+                    expected: &expected[s],
+                    k: drops[j].0,
+                    i: 0,
+                    inv: TokenInv::new(&spec),
+                    use_next: use_next[j],
+                });
+            }
+            let mut order = Rng::new(order_seed);
+            let mut live: Vec<bool> = vec![true; drives.len()];
+            let mut ok = true;
+            while live.iter().any(|&l| l) {
+                let mut j = order.usize_below(drives.len());
+                if !live[j] {
+                    j = live.iter().position(|&l| l).unwrap();
+                }
+                let (inst, s) = jobs[j];
+                let text: &str = &texts[s].0;
+                let hist_json = &hist_json;
+                let kinds_json = &kinds_json;
+                let spec = &spec;
+                let drop_kind = drops[j].1;
+                let kind = kinds[inst];
+                let wit = move |t: &Token, idx: u64| -> Value {
+                    let mut w = spec.witness();
+                    w["api"] = json!("TextAnalyzer::token_stream on a reused / cloned analyzer");
+                    w["text"] = json!(clip(text, 200));
+                    w["text_len"] = json!(text.len());
+                    w["token_index"] = json!(idx);
+                    w["token"] = tok_json(t);
+                    w["instance"] = json!(inst);
+                    w["instance_kind"] = json!(kind);
+                    w["instances"] = kinds_json.clone();
+                    w["planned_drop"] = json!(drop_kind);
+                    w["earlier_streams"] = json!(hist_json);
+                    w["interleaved_with_other_instance"] = json!(interleaved);
+                    w
+                };
+                match drives[j].step(rep, &wit) {
+                    DriveState::More => {}
+                    DriveState::Done => live[j] = false,
+                    DriveState::Failed => {
+                        ok = false;
+                        break;
+                    }
+                }
+            }
+            ok
+        });
+        match result {
+            Ok(true) => {}
+            Ok(false) => return,
+            Err(p) if p.in_harness() => {
+                rep.harness_error(format!("reuse#{case}: panic in harness at {}: {}", p.location, p.message));
+                return;
+            }
+            Err(p) => {
+                let mut w = spec.witness();
+                w["texts"] = json!(jobs.iter().map(|&(_, s)| clip(&texts[s].0, 200)).collect::<Vec<_>>());
+                w["earlier_streams"] = json!(hist_json);
+                w["panic"] = json!({"at": p.location, "message": clip(&p.message, 300)});
+                rep.violation(format!("reuse:token_stream-panics:{}", panic_sig(&p)), w);
+                return;
+            }
+        }
+        for (j, &(inst, s)) in jobs.iter().enumerate() {
+            let (text, class) = &texts[s];
+            let (k, drop_kind) = drops[j];
+            let of = expected[s].len();
+            rep.eval();
+            rep.count("reuse_streams", 1);
+            rep.observe("reuse_drop_point", drop_kind);
+            rep.observe("reuse_instance", kinds[inst]);
+            rep.observe("reuse_text_class", *class);
+            if k < of {
+                rep.count("reuse_streams_dropped_early", 1);
+            }
+            let in_compound = k >= 1
+                && k < of
+                && has_split
+                && (expected[s][k].offset_from, expected[s][k].offset_to, expected[s][k].position)
+                    == (expected[s][k - 1].offset_from, expected[s][k - 1].offset_to, expected[s][k - 1].position);
+            if in_compound {
+                rep.count("reuse_streams_dropped_inside_a_split_compound", 1);
+            }
+            // non-trivial: the instance's previous stream was abandoned before its end, and this
+            // text is multi-byte with >= 2 tokens to compare
+            if let Some(prev) = last_partial[inst] {
+                rep.count("reuse_streams_after_an_abandoned_stream", 1);
+                if has_multibyte(text) && of >= 2 {
+                    rep.nontrivial(format!("reuse|{}|after:{}|{}|{}", spec.describe(), prev, kinds[inst], class));
+                }
+            }
+            last_partial[inst] = if k < of {
+                Some(if in_compound { "dropped-inside-split-compound" } else { drop_kind })
+            } else {
+                None
+            };
+            history.push(ReuseStep { instance: inst, text: text.clone(), pulled: k, of });
+            last_used = inst;
+        }
+        if case < 2 && step == 0 {
+            rep.sample(json!({"stream": "reuse", "analyzer": spec.describe(), "steps": nsteps,
+                "first_text": clip(&texts[0].0, 60), "first_drop": drops[0].1}));
+        }
+        step += jobs.len();
     }
 }
 
@@ -1227,7 +1828,7 @@ fn snippet_spec(rng: &mut Rng, texts: &[String]) -> Spec {
             Spec { tok: Tok::Ngram(a, b, rng.chance(1, 4)), filters: f }
         }
         8 => Spec { tok: Tok::Whitespace, filters: vec![Filt::Lower] },
-        9 => Spec { tok: Tok::Regex(*rng.pick(&[r"\w+", r"[^\s]+", r"\p{L}+", r"\pL\pM*", r"'(?:\w*)'"])), filters: if rng.bool() { vec![Filt::Lower] } else { vec![] } },
+        9 => Spec { tok: Tok::Regex(rng.pick(&[r"\w+", r"[^\s]+", r"\p{L}+", r"\pL\pM*", r"'(?:\w*)'"]).to_string()), filters: if rng.bool() { vec![Filt::Lower] } else { vec![] } },
         _ => {
             let tok = gen_tok(rng, false);
             let filters = if matches!(tok, Tok::Manager(_)) { vec![] } else { gen_filters(rng, texts) };
@@ -1618,6 +2219,10 @@ fn snippet_case(case: u64, rng: &mut Rng, rep: &mut Report) {
 fn main() {
     let ctx = Ctx::from_env("C19", "exploration");
     let mut rep = run_cases(&ctx, "tokens", ctx.scale(12_000, 600_000) as u64, token_case);
+    let regex = run_cases(&ctx, "regex", ctx.scale(6_000, 120_000) as u64, regex_case);
+    rep.merge(regex);
+    let reuse = run_cases(&ctx, "reuse", ctx.scale(5_000, 100_000) as u64, reuse_case);
+    rep.merge(reuse);
     let snip = run_cases(&ctx, "snippets", ctx.scale(3_000, 100_000) as u64, snippet_case);
     rep.merge(snip);
     simple_finish(
@@ -1625,7 +2230,16 @@ fn main() {
         rep,
         "tokens: one evaluation = (generated text, tokenizer, filter chain); non-trivial = text has a multi-byte \
          character and the chain emitted >= 2 tokens with every check passing; distinct = (tokenizer incl. parameters, filter chain \
-         incl. parameters, text class). snippets: one evaluation = (analyzer, query/term map, text) swept over \
+         incl. parameters, text class). regex: RegexTokenizer with patterns generated from a grammar (atoms x quantifiers incl. \
+         zero-width ones, alternations with empty branches, anchors, flags; patterns that can match the empty string, match at \
+         every position or match multi-byte characters) over texts whose matching pieces are separated by 0-4 byte characters, bare \
+         or with filters; same checks as tokens, non-trivial = multi-byte text with >= 1 token. reuse: one evaluation = one token \
+         stream of an analyzer instance that is used for 3-9 texts in sequence (the original, a clone made before use, clones \
+         made after a dropped stream; sometimes two instances interleaved), dropped after 0..k tokens (inside a group of tokens \
+         with equal start = split compound / n-gram window, after the first, before the last, random, fully consumed); every pulled \
+         token must satisfy the statement for the text of ITS stream and equal the token a fresh analyzer of the same \
+         configuration emits; non-trivial = stream on an instance whose previous stream was abandoned early, multi-byte text with \
+         >= 2 tokens; distinct = (analyzer, kind of the previous drop, instance kind, text class). snippets: one evaluation = (analyzer, query/term map, text) swept over \
          max_num_chars 0..=len+10 (sampled for long texts); non-trivial = multi-byte text with >= 1 highlighted range; \
          distinct = (analyzer, constructor, query kind, text class, limit bucket)",
         ctx.scale(2_000, 60_000),
@@ -1634,6 +2248,7 @@ fn main() {
             "raw Snippet::highlighted() may contain overlapping ranges when the field's analyzer itself emits overlapping tokens (n-grams, split compounds); sorted+disjoint is then required of collapse_overlapped_ranges(highlighted), which is what to_html renders",
             "to_html may or may not merge touching ranges (documentation and code of collapse_overlapped_ranges disagree); both renderings are accepted",
             "SplitCompoundWords dictionaries and stop-word lists are valid UTF-8 strings",
+            "the tokens of a text are a function of (analyzer configuration, text): a reused or cloned analyzer must emit, for each text, the tokens a freshly built analyzer of the same configuration emits (signatures reuse:*); which tokens a RegexTokenizer emits around empty matches is NOT prescribed (only the per-token clauses are checked there)",
             "completeness of highlighting (every occurrence of a term is highlighted, best fragment chosen) is not part of the statement and is not checked",
         ],
     );
